@@ -20,6 +20,11 @@ Definition V_MALFORMED : N := 9.
 (* K-Q128: a query / form field of type u128 or i128 is refused whatever its value *)
 Definition V_K128 : N := 191.
 
+(* run-length notation for long byte strings in case terms: the harness
+   writes a value in which a unit of 1..80 bytes repeats as [rep n unit ++ ..];
+   lossless, expanded here before anything is evaluated *)
+Definition rep (n : N) (s : str) : str := N.iter n (app s) [].
+
 Inductive rinfo := RI (method uri : str) (marker : option str) (port : N).
 
 Inductive obs :=
@@ -30,6 +35,19 @@ Inductive obs :=
       (parts : option (list (str * str))) (ri : option rinfo) (usable : bool).
 
 Definition named := list (str * fval).
+
+(* payloads the Coq VM cannot hold (64 Ki elements and more): each value is
+   abstracted by the harness to (length, first 32 bytes, last 32 bytes,
+   FNV-1a-64 hash) *)
+Inductive dig := Dig (len : N) (pre suf : str) (hash : N).
+Definition dig_eqb (a b : dig) : bool :=
+  match a, b with
+  | Dig l p s h, Dig l' p' s' h' => (l =? l') && str_eqb p p' && str_eqb s s' && (h =? h')
+  end.
+Inductive lobs :=
+| LNone
+| LErr (status : N)
+| LOk (entered usable : bool) (got : list dig) (ri : option rinfo).
 
 (* the body extractor of a multi-extractor endpoint *)
 Inductive mbody :=
@@ -60,6 +78,9 @@ Inductive ccase :=
      once (malformed stream only): [extract3] over the stages present *)
 | CMulti (path : option (spec * list (str * wseg))) (query : option (spec * option str))
          (body : mbody) (rq : rinfo) (o : obs)
+  (* a valid request with a payload of 64 Ki bytes or more: the values sent and
+     the values echoed as digests; the specification alone is evaluated *)
+| CLargeOk (sent : list dig) (rq : rinfo) (o : lobs)
   (* refused in front of the extractors (the HTTP parser, the router): no
      model here, the specification alone is evaluated *)
 | CNoModel (want_shape : bool) (rq : rinfo) (o : obs).
@@ -266,6 +287,12 @@ Definition judge (c : ccase) : N :=
         | MBMultipart ct => do _ <- extract_multipart ct; Ok tt
         end in
       verdict_malformed o (extract3 mp mq mb)
+  | CLargeOk sent rq o =>
+      match o with
+      | LOk entered usable got ri =>
+          if entered && usable && list_eqb dig_eqb sent got && ri_ok ri rq then V_AGREE else V_VIOLATION
+      | _ => V_VIOLATION
+      end
   | CNoModel want_shape rq o =>
       if spec_refused want_shape o then V_AGREE else V_VIOLATION
   end.
@@ -275,7 +302,7 @@ Definition is_valid_stream (c : ccase) : bool :=
   match c with
   | CPath _ _ (Some _) _ _ | CQuery _ _ (Some _) _ _ | CForm _ _ _ _ (Some _) _ _
   | CJson _ _ _ _ (Some _) _ _ | CRaw _ _ _ _ _ _ | CMultipart _ _ _ (Some _) _ _
-  | CAll _ _ _ _ _ _ _ _ (Some _) _ _ => true
+  | CAll _ _ _ _ _ _ _ _ (Some _) _ _ | CLargeOk _ _ _ => true
   | _ => false
   end.
 
